@@ -17,7 +17,9 @@ import (
 	"flag"
 	"fmt"
 	"os"
+	"runtime/debug"
 	"sort"
+	"strings"
 
 	"github.com/oasisprotocol/oasis-core/go/common"
 	"github.com/oasisprotocol/oasis-core/go/storage/mkvs"
@@ -44,6 +46,21 @@ func nn(b []byte) []byte {
 	out := make([]byte, len(b))
 	copy(out, b)
 	return out
+}
+
+// coqBytes renders a byte string as a Coq term of type bytes. Long strings are
+// written as a concatenation of coqout.Bytes chunks: evaluating [bs len n]
+// costs about len^2, which dominated the evaluation of the case files.
+func coqBytes(b []byte) string {
+	const chunk = 8
+	if len(b) <= chunk {
+		return coqout.Bytes(b)
+	}
+	var parts []string
+	for i := 0; i < len(b); i += chunk {
+		parts = append(parts, coqout.Bytes(b[i:min(i+chunk, len(b))]))
+	}
+	return "(" + strings.Join(parts, " ++ ") + ")"
 }
 
 // ---------- case descriptions ----------
@@ -238,6 +255,14 @@ func (c counts) into(s *coqout.Summary) {
 	}
 }
 
+// countKV records the distribution of the generated keys / values.
+func (c counts) countKey(k []byte) {
+	c.add("key_len", bucket(len(k), 0, 4, 16, 64))
+}
+func (c counts) countVal(v []byte) {
+	c.add("value_len", bucket(len(v), 0, 8))
+}
+
 func bucket(n int, edges ...int) string {
 	// edges are inclusive upper bounds of consecutive buckets
 	lo := 0
@@ -251,6 +276,56 @@ func bucket(n int, edges ...int) string {
 		lo = e + 1
 	}
 	return fmt.Sprintf("%d+", lo)
+}
+
+// ---------- shrinking ----------
+
+// shrinkLeft is the run-wide budget of candidate runs spent on shrinking (the
+// implementation is re-run once per candidate); when it is used up the
+// remaining violations are reported un-shrunk.
+var shrinkLeft = 250
+
+const shrinkPerViolation = 120
+
+// Only the first violation of every (kind, backend, evicting-or-not) class is
+// shrunk; further ones of the same class are reported as they were generated.
+var shrunkClasses = map[string]bool{}
+
+func firstOfItsKind(kind string, c Case) bool {
+	k := fmt.Sprintf("%s/%s/%v", kind, c.Backend, evicting(c))
+	if shrunkClasses[k] {
+		return false
+	}
+	shrunkClasses[k] = true
+	return true
+}
+
+// shrinkOps greedily removes chunks of operations (halving the chunk size down
+// to single operations) while test accepts the candidate; test returns the
+// operation list to continue with (the operations actually performed).
+func shrinkOps(ops []Op, test func([]Op) ([]Op, bool)) []Op {
+	budget := shrinkPerViolation
+	for chunk := (len(ops) + 1) / 2; chunk >= 1 && budget > 0 && shrinkLeft > 0; {
+		removed := false
+		for i := 0; i+chunk <= len(ops) && budget > 0 && shrinkLeft > 0; {
+			cand := append(append([]Op{}, ops[:i]...), ops[i+chunk:]...)
+			budget--
+			shrinkLeft--
+			if eff, ok := test(cand); ok && len(eff) < len(ops) {
+				ops = eff
+				removed = true
+			} else {
+				i += chunk
+			}
+		}
+		switch {
+		case chunk > 1:
+			chunk /= 2
+		case !removed:
+			chunk = 0
+		}
+	}
+	return ops
 }
 
 // ---------- scratch node databases ----------
@@ -302,6 +377,13 @@ func (e *env) close() {
 	}
 }
 
+// debugStack prints the stack of a recovered panic when VERIF_MKVS_STACK is set (diagnosis only).
+func debugStack() {
+	if os.Getenv("VERIF_MKVS_STACK") != "" {
+		os.Stderr.Write(debug.Stack())
+	}
+}
+
 // quietly runs f, swallowing a panic (used for cleanup after the implementation panicked).
 func quietly(f func()) {
 	defer func() { _ = recover() }()
@@ -318,6 +400,10 @@ func treeOptions(c Case) []mkvs.Option {
 
 // ---------- generators ----------
 
+// capsMode restricts the generated capacities: all (default), safe (never
+// evicting), evicting (database backends with at least one small capacity).
+var capsMode = "all"
+
 var (
 	alphabet  = []byte{0x00, 0x01, 0x80, 0xff}
 	nodeCaps  = []uint64{0, 1, 2, 3, 8, 5000}
@@ -328,6 +414,26 @@ var (
 // cannot re-fetch evicted nodes, so it only gets the unlimited or the default
 // capacity.
 func genConfig(r *prng.R, c *Case) {
+	switch capsMode {
+	case "safe":
+		// only capacities that never evict in histories of this size
+		c.Backend = []string{"mem", "badger", "pathbadger"}[r.Intn(3)]
+		c.NodeCap = []uint64{0, 5000}[r.Intn(2)]
+		c.ValueCap = []uint64{0, 16777216}[r.Intn(2)]
+		if c.Backend == "mem" && (c.NodeCap == 0) != (c.ValueCap == 0) {
+			c.ValueCap = 16777216 * (c.NodeCap / 5000)
+		}
+		return
+	case "evicting":
+		for {
+			c.Backend = []string{"badger", "pathbadger"}[r.Intn(2)]
+			c.NodeCap = nodeCaps[r.Intn(len(nodeCaps))]
+			c.ValueCap = valueCaps[r.Intn(len(valueCaps))]
+			if evicting(*c) {
+				return
+			}
+		}
+	}
 	c.Backend = []string{"mem", "badger", "pathbadger"}[r.Intn(3)]
 	if c.Backend == "mem" {
 		if r.Chance(50) {
@@ -370,7 +476,8 @@ func (g *keygen) short() []byte {
 	return k
 }
 
-// fresh returns a key without consulting the history (6% empty, 5% long).
+// key picks the next key: 6% the empty key, 5% a long key, 64% a key already
+// used in this history (if any), else a fresh short key over the alphabet.
 func (g *keygen) key() []byte {
 	x := g.r.Intn(100)
 	switch {
@@ -488,10 +595,20 @@ func main() {
 	out := flag.String("out", "", "output directory")
 	mode := flag.String("mode", "c02", "c02 (shape and root hash) or c03 (tree / overlay answers)")
 	replay := flag.String("replay", "", "replay a case description (JSON file)")
+	flag.StringVar(&capsMode, "caps", "all", "generated cache capacities: all, safe (never evicting) or evicting")
 	flag.Parse()
+	switch capsMode {
+	case "all", "safe", "evicting":
+	default:
+		fmt.Fprintln(os.Stderr, "unknown -caps", capsMode)
+		os.Exit(2)
+	}
 	if *out == "" {
 		fmt.Fprintln(os.Stderr, "need -out")
 		os.Exit(2)
+	}
+	if os.Getenv("VERIF_MKVS_NOSHRINK") != "" {
+		shrinkLeft = 0 // diagnosis only
 	}
 	var err error
 	scratchRoot, err = os.MkdirTemp("", "verif-mkvs-")
